@@ -280,6 +280,9 @@ func c10ListPages(c *Ctx) {
 					}
 					l.mu.Unlock()
 				}
+				l.mu.Lock()
+				c.Obs(cn, kvi("n", len(got)), kvi("calls", len(l.asked)), kvb("ok", lerr == nil))
+				l.mu.Unlock()
 				c.Oracle(cn, why == "", why)
 			}
 		}
